@@ -90,11 +90,23 @@ fn gen_outline(r: &mut Rng, t: &TaskCtx) -> Vec<Entry> {
                         format!("{}(N$i, X)", p)
                     }
                     4 => format!("N$i * N$i >= {}", r.range(-1, 1)),
+                    5 if r.chance(1, 2) => {
+                        // a general variable with the name of the induction variable
+                        // (false claims whose base and step become valid when the general N is taken for
+                        // the induction variable)
+                        [format!("(N = {nn} or N = N$i + 1)"), format!("(N = {nn} or N > N$i)"), format!("(N = N$i)")][r.upto(3)].clone()
+                    }
                     _ => format!("N$i >= {}", nn - r.range(0, 1)),
                 };
                 let name = format!("in{k}");
                 // now and then an antecedent that is a comparison chain (not of the form N >= n)
-                let text = if r.chance(1, 8) {
+                let text = if f.contains("N =") || f.contains("N !=") {
+                    match r.below(3) {
+                        0 => format!("forall N N$i (N$i >= {nn} -> {f})"),
+                        1 => format!("forall N$i (N$i >= {nn} -> {f})"),
+                        _ => format!("N$i >= {nn} -> {f}"),
+                    }
+                } else if r.chance(1, 8) {
                     let rel = ["!=", "<", ">=", "="][r.upto(4)];
                     let t2 = ["N$i".to_string(), format!("{}", nn + 1), "N$i + 1".to_string()][r.upto(3)].clone();
                     format!("N$i >= {nn} {rel} {t2} -> {f}")
@@ -228,6 +240,18 @@ fn check_induction(t: &TaskCtx, entries: &[Entry], d: Dir, problems: &[ProblemDa
         let _ = ftext;
         let Ok(f) = l.text.parse::<fol::Formula>() else { continue };
         let f = replace_placeholders(&f, &t.placeholders);
+        // the lemma is universally closed: leading universal quantifiers are stripped and their
+        // variables assigned like the free ones (one false instance refutes the lemma)
+        let f = {
+            let mut g = f;
+            while let fol::Formula::QuantifiedFormula { quantification, formula } = &g {
+                if quantification.quantifier != fol::Quantifier::Forall {
+                    break;
+                }
+                g = (**formula).clone();
+            }
+            g
+        };
         let preds = formula_preds(&f);
         let pool = default_pool();
         for _ in 0..12 {
@@ -276,6 +300,9 @@ fn check_induction(t: &TaskCtx, entries: &[Entry], d: Dir, problems: &[ProblemDa
                 }
                 let v = eval_fol(&f, &interp, &interp, &consts, &a, World::C).0;
                 st.inc("induction_instances_checked");
+                if l.text.contains("N =") || l.text.contains("N !=") {
+                    st.inc(&format!("induction_instances_with_general_N_{v:?}"));
+                }
                 match v {
                     Tv::F => {
                         st.eval(None);
